@@ -432,6 +432,62 @@ pub fn gen(args: &[String]) -> i32 {
             put(&mut o, "corpus", t.clone(), ins);
         }
     }
+    // (2b) rare productions: a keyword that occurs in at most three corpus texts marks a production the random
+    // mutations would hardly ever hit (VAR_ACCESS, VAR_CONFIG, RESOURCE ... ON, PROPERTY, ...).  Every text that
+    // contains one gets the complete sweep of single-word deletions and single-word replacements (by ':' , ';' and
+    // a literal): each error path of those productions is entered at least once, in every run.
+    if !args.iter().any(|a| a == "--no-corpus") {
+        let words = |t: &str| -> Vec<(usize, usize)> {
+            let b = t.as_bytes();
+            let (mut v, mut i) = (Vec::new(), 0usize);
+            while i < b.len() {
+                if b[i].is_ascii_whitespace() {
+                    i += 1;
+                } else if b[i].is_ascii_alphanumeric() || b[i] == b'_' {
+                    let a = i;
+                    while i < b.len() && (b[i].is_ascii_alphanumeric() || b[i] == b'_') {
+                        i += 1;
+                    }
+                    v.push((a, i));
+                } else {
+                    let a = i;
+                    i += 1;
+                    while i < b.len() && !t.is_char_boundary(i) {
+                        i += 1;
+                    }
+                    v.push((a, i));
+                }
+            }
+            v
+        };
+        let mut freq: std::collections::HashMap<String, usize> = std::collections::HashMap::new();
+        for (_, t) in &corp {
+            let mut seen = std::collections::HashSet::new();
+            for (a, b) in words(t) {
+                let w = t[a..b].to_ascii_uppercase();
+                if w.len() >= 4 && w.bytes().all(|c| c.is_ascii_uppercase() || c == b'_') && t[a..b].bytes().all(|c| c.is_ascii_uppercase() || c == b'_') && seen.insert(w.clone()) {
+                    *freq.entry(w).or_default() += 1;
+                }
+            }
+        }
+        let mut swept = 0usize;
+        for (_, t) in &corp {
+            let ws = words(t);
+            if ws.len() > 120 || !ws.iter().any(|(a, b)| freq.get(&t[*a..*b].to_ascii_uppercase()).map_or(false, |n| *n <= 3) && t[*a..*b].bytes().all(|c| c.is_ascii_uppercase() || c == b'_') && b - a >= 4) {
+                continue;
+            }
+            for (a, b) in &ws {
+                put(&mut o, "rare-delete", format!("{}{}", &t[..*a], &t[*b..]), vec![]);
+                for r in [":", ";", "1"] {
+                    put(&mut o, "rare-replace", format!("{}{r}{}", &t[..*a], &t[*b..]), vec![]);
+                }
+                swept += 4;
+            }
+            // and the text once more in front of itself: the same production after a completed item
+            put(&mut o, "rare-twice", format!("{t}\n{t}"), vec![]);
+        }
+        eprintln!("parse-gen: rare-production sweep: {swept} texts");
+    }
     // (3) seeded random scripts; every 40th is an echo: the text generated 25 scripts earlier, again
     let mut recent: std::collections::VecDeque<String> = std::collections::VecDeque::new();
     let mut put = |o: &mut Out, src: &str, text: Option<String>, ins: Vec<J>| {
